@@ -289,3 +289,14 @@ pub fn popped(k: usize) -> u8 {
 pub fn pop_set(k: usize) -> u64 {
     unsafe { POP_SETS[k] }
 }
+
+/// contract of Board::is_legal_king_position (discharged on the real body by C01.king_position):
+/// dest is not attacked by the opponent once the mover's king is lifted off the board
+pub fn king_position_spec(p: &r::P, dest: u8) -> bool {
+    let lifted = r::occ(p) & !g::bit(r::king_of(p, p.turn));
+    !r::attacked_with(p, dest, 1 - p.turn, lifted, 0)
+}
+/// contract abstraction for use with #[kani::stub(Board::is_legal_king_position, king_position_contract_stub)]
+pub fn king_position_contract_stub(b: &Board, dest: Pos) -> bool {
+    king_position_spec(&view(b), dest as u8)
+}
